@@ -5,7 +5,9 @@ import U3.Lemmas.Manager
 Model: `U3.Manager` (`run`: one user call through `PoolManager` / `ProxyManager` / a bare pool over an
 arbitrary world of servers — any redirect graph, loops included — and arbitrary `parse_url` /
 `urljoin` oracles).  `effective` is the policy the *code* consults, `supplied` the one the caller
-gave (request keyword, else constructor).
+gave (request keyword, else constructor).  Every theorem holds for every world `W`, every client,
+every amount of fuel and every request; the proofs go by induction over the model's redirect loop
+(`U3.Lemmas.Manager`).
 -/
 namespace U3.Props
 open U3 U3.Headers U3.Retry U3.Manager
@@ -14,13 +16,9 @@ open U3 U3.Headers U3.Retry U3.Manager
 theorem C05_redirect_statuses : ∀ s ∈ Gen.Redirect.redirectStatuses, s ∈ [301, 302, 303, 307, 308] := by
   decide
 
-private theorem run_manager (W : World) (m : Mgr) (fuel : Nat) (req : Req) :
-    run W (.manager m) fuel req = mgrUrlopen W m fuel (requestWrap (.manager m) req).1 req.url
-      (req.redirect.getD true) ⟨req.body, (requestWrap (.manager m) req).2, req.retries⟩ := rfl
-
-private theorem run_pool (W : World) (p : Pool) (fuel : Nat) (req : Req) :
-    run W (.pool p) fuel req = poolUrlopen W p fuel (requestWrap (.pool p) req).1 req.url req.body
-      (requestWrap (.pool p) req).2 req.retries (req.redirect.getD true) (req.assertSameHost.getD true) := rfl
+/-- the status that triggers the method rewrite is 303 and only 303 -/
+theorem C05_rewrite_statuses : ∀ s, s ∈ Gen.Redirect.methodRewriteStatuses ↔ s = 303 := by
+  intro s; simp [Gen.Redirect.methodRewriteStatuses]
 
 /-- **Budget** — for every world (every redirect graph, loops included), every client, every fuel:
 the number of redirects followed never exceeds the redirect budget nor the total budget of the
@@ -52,35 +50,24 @@ theorem C05_followed_le_budget (W : World) (c : Client) (fuel : Nat) (req : Req)
         (requestWrap (.pool p) req).2 req.retries (req.redirect.getD true) (req.assertSameHost.getD true) b hb
       unfold Run.followed; omega
 
-/-- the policy is *placed* where the code looks: per request, or on a bare pool, or nowhere -/
-def PlacementHonoured (c : Client) (req : Req) : Prop :=
-  req.retries ≠ .none ∨ (∃ p, c = .pool p) ∨ (∃ m, c = .manager m ∧ m.retries = .none)
-
-theorem effective_eq_supplied (c : Client) (req : Req) (h : PlacementHonoured c req) :
-    effective c req = supplied c req := by
-  cases c with
-  | pool p => rfl
-  | manager m =>
-    simp only [effective, supplied]
-    rcases h with h | ⟨p, hp⟩ | ⟨m', hm, hn⟩
-    · cases hr : req.retries with
-      | none => exact absurd hr h
-      | false => rfl
-      | int n => rfl
-      | retry r => rfl
-    · cases hp
-    · cases hm; rw [hn]
-
 /- Full statement (the property text): for every placement of the policy,
 `(run W c fuel req).followed ≤ budget (supplied c req)`.  It is FALSE for a policy given only to the
-`PoolManager` / `ProxyManager` constructor (`C05_manager_policy_ignored` below): `PoolManager.urlopen`
-derives the redirect policy from the per-request keyword only.  Proved part: every other placement. -/
+`PoolManager` / `ProxyManager` constructor (`C05_manager_policy_ignored_witness` below):
+`PoolManager.urlopen` derives the redirect policy from the per-request keyword only.  Proved part:
+every other placement (`PlacementHonoured`: per request, on a bare pool, or no policy at all);
+`C05_excluded_placement` shows that the excluded case is exactly "a policy on the manager
+constructor and none per request". -/
 theorem C05_followed_le_supplied_partial (W : World) (c : Client) (fuel : Nat) (req : Req)
     (h : PlacementHonoured c req) :
     (∀ b, (supplied c req).redirectBudget = some b → (run W c fuel req).followed ≤ b) ∧
     (∀ b, (supplied c req).totalBudget = some b → (run W c fuel req).followed ≤ b) := by
   rw [← effective_eq_supplied c req h]
   exact C05_followed_le_budget W c fuel req
+
+/-- the case `C05_followed_le_supplied_partial` excludes, spelled out -/
+theorem C05_excluded_placement (c : Client) (req : Req) :
+    ¬ PlacementHonoured c req ↔ ∃ m, c = .manager m ∧ req.retries = .none ∧ m.retries ≠ .none :=
+  not_placementHonoured_iff c req
 
 /-! ### a world in which every reply is `302 Location: /next` -/
 
@@ -104,6 +91,15 @@ theorem C05_manager_policy_ignored :
       = .response ⟨302, some [47, 110]⟩ := by
   decide
 
+/-- **Negation witness** for the full statement: without `PlacementHonoured` the bound by the
+*supplied* policy fails (manager constructor `retries=False`, nothing per request) -/
+theorem C05_manager_policy_ignored_witness :
+    ¬ (∀ (W : World) (c : Client) (fuel : Nat) (req : Req) (b : Nat),
+        (supplied c req).redirectBudget = some b → (run W c fuel req).followed ≤ b) := by
+  intro h
+  have := h loopWorld (.manager ⟨.false, .dict [], none⟩) 10 (plainReq .none) 0 (by decide)
+  exact absurd this (by decide)
+
 /-- non-vacuity of `PlacementHonoured` and of the budget hypotheses: `Retry(redirect=2)` per request
 on a `PoolManager` in the redirect loop: budget 2, exactly 2 followed -/
 example : PlacementHonoured (.manager ⟨.none, .dict [], none⟩)
@@ -113,5 +109,332 @@ example : PlacementHonoured (.manager ⟨.none, .dict [], none⟩)
     (run loopWorld (.manager ⟨.none, .dict [], none⟩) 10
       (plainReq (.retry (Retry.ofTotal (.num 10) (.num 2))))).followed = 2 := by
   refine ⟨Or.inl (by simp [plainReq]), by decide, by decide⟩
+
+/-! ### redirects disabled -/
+
+/-- redirects are *disabled* for this call: `redirect=False`, or the policy in effect has no redirect
+budget and `raise_on_redirect` off — which is what `Retry.__init__` makes of `redirect=False` /
+`total=False` and `Retry.from_int` of `retries=False` (`C05_disabled_forms`) -/
+def RedirectDisabled (c : Client) (req : Req) : Prop :=
+  req.redirect = some false ∨
+  (((effective c req).redirectBudget = some 0 ∨ (effective c req).totalBudget = some 0) ∧
+    (effective c req).raiseOnRedirect = false)
+
+/-- **Disabled ⇒ untouched** — with `redirect=False` / `retries=False` / `Retry(redirect=False)` /
+`Retry(total=False)` in effect the wire log has at most one entry: either nothing was sent (an
+exception before any I/O: the outcome is no response), or exactly the request for `req.url` was sent
+and its reply — 3xx or not — is what the caller gets; the `Location` target is never contacted.
+(`statusRetry`: the reply's status is in the policy's `status_forcelist` — C04's territory;
+`oracleMissing`: the world's `urljoin` table has no entry — the model needs it before it consults
+the budget, as the code calls `urljoin` first.) -/
+theorem C05_disabled_untouched (W : World) (c : Client) (fuel : Nat) (req : Req)
+    (h : RedirectDisabled c req) :
+    ((run W c fuel req).log = [] ∧ ∀ r, (run W c fuel req).outcome ≠ .response r) ∨
+    ∃ s, (run W c fuel req).log = [s] ∧ s.url = req.url ∧
+      ((run W c fuel req).outcome = .response s.reply ∨ (run W c fuel req).outcome = .statusRetry ∨
+       (run W c fuel req).outcome = .oracleMissing) := by
+  have hd : req.redirect.getD true = false ∨
+      ((effective c req).redirect.budget = some 0 ∨ (effective c req).total.budget = some 0) := by
+    rcases h with h | h
+    · left; rw [h]; rfl
+    · right; exact h.1
+  rcases run_disabled W c fuel req hd with hl | ⟨s, hl, hu, he⟩
+  · exact Or.inl ⟨hl, ((run_surface W c fuel req).1 hl).2⟩
+  · refine Or.inr ⟨s, hl, hu, ?_⟩
+    rcases he with he | he | he | ⟨hred, _, _, hout⟩
+    · exact Or.inr (Or.inl he)
+    · exact Or.inr (Or.inr he)
+    · exact Or.inl he.1
+    · rcases h with h | h
+      · rw [h] at hred; cases hred
+      · rw [h.2] at hout; exact Or.inl hout
+
+/-- the spellings of "disabled" the property names all satisfy `RedirectDisabled` -/
+theorem C05_disabled_forms (c : Client) (req : Req) :
+    (req.redirect = some false → RedirectDisabled c req) ∧
+    (req.retries = .false → RedirectDisabled c req) ∧
+    (∀ p : Retry, (p.redirect = .disabled ∨ p.total = .disabled) → req.retries = .retry (Retry.init p) →
+      RedirectDisabled c req) ∧
+    (∀ pl : Pool, c = .pool pl → req.retries = .none → pl.retries = .false → RedirectDisabled c req) ∧
+    (∀ (pl : Pool) (p : Retry), c = .pool pl → req.retries = .none →
+      (p.redirect = .disabled ∨ p.total = .disabled) → pl.retries = .retry (Retry.init p) →
+      RedirectDisabled c req) := by
+  refine ⟨fun h => Or.inl h, ?_, ?_, ?_, ?_⟩
+  · intro h
+    right
+    have key : effective c req = Retry.fromInt .false (req.redirect.getD true)
+        (match c with | .manager _ => .none | .pool p => p.retries) := by
+      cases c <;> simp [effective, h, deriveRetry]
+    rw [key]
+    exact ⟨Or.inl (fromInt_false _ _).1, (fromInt_false _ _).2⟩
+  · intro p hp h
+    right
+    have key : effective c req = Retry.init p := by
+      cases c <;> simp [effective, h]
+    rw [key]
+    exact ⟨Or.inl (init_disabled p hp).1, (init_disabled p hp).2⟩
+  · intro pl hc h hpl
+    right
+    subst hc
+    have key : effective (.pool pl) req = Retry.fromInt .false (req.redirect.getD true) .none := by
+      show deriveRetry req.retries (req.redirect.getD true) pl.retries = _
+      rw [h, hpl]; exact fromInt_none_false (req.redirect.getD true)
+    rw [key]
+    exact ⟨Or.inl (fromInt_false _ _).1, (fromInt_false _ _).2⟩
+  · intro pl p hc h hp hpl
+    right
+    subst hc
+    have key : effective (.pool pl) req = Retry.init p := by
+      show deriveRetry req.retries (req.redirect.getD true) pl.retries = _
+      rw [h, hpl]; exact fromInt_none_retry (req.redirect.getD true) _
+    rw [key]
+    exact ⟨Or.inl (init_disabled p hp).1, (init_disabled p hp).2⟩
+
+/-- non-vacuity: `retries=False` per request in the redirect loop — disabled, one request, the 302 back -/
+example : RedirectDisabled (.manager ⟨.none, .dict [], none⟩) (plainReq .false) ∧
+    (run loopWorld (.manager ⟨.none, .dict [], none⟩) 10 (plainReq .false)).log.length = 1 ∧
+    (run loopWorld (.manager ⟨.none, .dict [], none⟩) 10 (plainReq .false)).outcome
+      = .response ⟨302, some [47, 110]⟩ :=
+  ⟨(C05_disabled_forms _ _).2.1 rfl, by decide, by decide⟩
+
+/-! ### hop by hop: method, body, target -/
+
+/-- a world whose every reply is `<status> Location: /n` -/
+def statusWorld (status : Nat) : World where
+  serve := fun _ _ _ => ⟨status, some [47, 110]⟩
+  parse := fun _ => some loopUrl
+  join := fun _ _ => some [104, 116, 116, 112, 58, 47, 47, 97, 47]
+/-- `POST` with body `xy` -/
+def postReq : Req := ⟨false, [80, 79, 83, 84], [104, 116, 116, 112, 58, 47, 47, 97, 47], some [120, 121], none, .none, none, none⟩
+def barePool : Pool := Pool.ofCtor sHttp [97] none .none none
+
+/-- **303 ⇒ body-less GET** — manager and pool level: whatever request of the chain was answered by a
+303, its follow-up is a `GET` without body -/
+theorem C05_303_rewrite (W : World) (c : Client) (fuel : Nat) (req : Req) (i : Nat) (a b : Sent)
+    (ha : (run W c fuel req).log[i]? = some a) (hb : (run W c fuel req).log[i + 1]? = some b)
+    (h303 : a.reply.status = 303) : b.method = sGET ∧ b.body = none := by
+  obtain ⟨_, hm, hbd, _⟩ := (run_hops W c fuel req).get i a b ha hb
+  rw [h303] at hm hbd
+  exact ⟨hm, hbd⟩
+
+example : (run (statusWorld 303) (.manager ⟨.none, .dict [], none⟩) 10 postReq).log.map
+      (fun s => (s.reply.status, s.method, s.body))
+    = [(303, [80, 79, 83, 84], some [120, 121]), (303, sGET, none), (303, sGET, none), (303, sGET, none)] := by
+  decide
+example : (run (statusWorld 303) (.pool barePool) 10 { postReq with url := [47] }).log.map
+      (fun s => (s.reply.status, s.method, s.body))
+    = [(303, [80, 79, 83, 84], some [120, 121]), (303, sGET, none), (303, sGET, none), (303, sGET, none)] := by
+  decide
+
+/-- **301/302/307/308 keep method and body** (the code rewrites on 303 only — also for a `POST`
+answered by 301/302, where browsers would switch to `GET`): a followed request was answered by one of
+the five redirect codes with a non-empty `Location`, and unless that code was 303 the follow-up has
+the same method and the same body -/
+theorem C05_30x_preserve (W : World) (c : Client) (fuel : Nat) (req : Req) (i : Nat) (a b : Sent)
+    (ha : (run W c fuel req).log[i]? = some a) (hb : (run W c fuel req).log[i + 1]? = some b) :
+    a.reply.status ∈ [301, 302, 303, 307, 308] ∧ (∃ loc, a.reply.location = some loc ∧ loc ≠ []) ∧
+    (a.reply.status ≠ 303 → b.method = a.method ∧ b.body = a.body) := by
+  obtain ⟨hloc, hm, hbd, _⟩ := (run_hops W c fuel req).get i a b ha hb
+  have hst : a.reply.status ∈ Gen.Redirect.redirectStatuses ∧ ∃ loc, a.reply.location = some loc ∧ loc ≠ [] := by
+    unfold Reply.redirectLocation at hloc
+    split at hloc
+    · rename_i hc
+      refine ⟨by simpa using hc, ?_⟩
+      split at hloc
+      · rename_i l hl
+        split at hloc
+        · cases hloc
+        · rename_i hne
+          exact ⟨l, hl, by simpa using hne⟩
+      · cases hloc
+    · cases hloc
+  refine ⟨C05_redirect_statuses _ hst.1, hst.2, ?_⟩
+  intro hne
+  have hnc : Gen.Redirect.methodRewriteStatuses.contains a.reply.status = false := by
+    rw [Bool.eq_false_iff]
+    intro hc
+    exact hne ((C05_rewrite_statuses _).1 (by simpa using hc))
+  simp only [rewrite303, hnc] at hm hbd
+  exact ⟨hm, hbd⟩
+
+example : (run (statusWorld 301) (.manager ⟨.none, .dict [], none⟩) 10 postReq).log.map
+      (fun s => (s.reply.status, s.method, s.body))
+    = [(301, [80, 79, 83, 84], some [120, 121]), (301, [80, 79, 83, 84], some [120, 121]),
+       (301, [80, 79, 83, 84], some [120, 121]), (301, [80, 79, 83, 84], some [120, 121])] := by
+  decide
+
+/-- **Relative Locations are resolved against the current URL** — at manager level the URL of hop
+`k+1` is `urljoin(URL of hop k, Location of hop k)` (not of hop 0), and — without a proxy — the request
+goes to the origin `connection_from_host` derives from *that* URL with the request target of its
+`request_uri`; a bare pool sends the `Location` itself as the next target -/
+theorem C05_relative_resolved (W : World) (c : Client) (fuel : Nat) (req : Req) (i : Nat) (a b : Sent)
+    (ha : (run W c fuel req).log[i]? = some a) (hb : (run W c fuel req).log[i + 1]? = some b) :
+    match c with
+    | .pool _ => some b.url = a.reply.redirectLocation
+    | .manager m =>
+      (∃ loc, a.reply.redirectLocation = some loc ∧ W.join a.url loc = some b.url) ∧
+      (m.proxy = none → ∃ u conn pu, W.parse b.url = some u ∧
+        connectionFromHost m u.host u.port u.scheme = .ok conn ∧ W.parse u.requestUri = some pu ∧
+        b.dest = conn.id.origin ∧ b.dial = conn.id.origin ∧ b.target = pu.target) := by
+  obtain ⟨_, _, _, hu⟩ := (run_hops W c fuel req).get i a b ha hb
+  cases c with
+  | pool p => exact hu
+  | manager m =>
+    refine ⟨hu, fun hp => ?_⟩
+    rw [run_manager] at hb
+    have hq := mgr_all W m (req.redirect.getD true) (fun _ _ _ => True)
+      (fun s => ∃ u conn pu, W.parse s.url = some u ∧
+        connectionFromHost m u.host u.port u.scheme = .ok conn ∧ W.parse u.requestUri = some pu ∧
+        s.dest = conn.id.origin ∧ s.dial = conn.id.origin ∧ s.target = pu.target)
+      (fun _ _ => trivial)
+      (fun _ hpass => by
+        obtain ⟨u, conn, pu, h1, h2, h3, h4, h5, _, h7, _⟩ := hpass.noproxy hp
+        exact ⟨u, conn, pu, h1, h2, h3, h4, h5, h7⟩)
+      fuel _ _ _ trivial b (List.mem_of_getElem? hb)
+    exact hq
+
+/-! a two-directory world: `http://a/d/x` answers `302 Location: y`, everything else `200`; the join
+table resolves `y` against `/d/x` (→ `/d/y`), not against anything else -/
+def relWorld : World where
+  serve := fun _ _ t => if t = [47, 100, 47, 120] then ⟨302, some [121]⟩ else ⟨200, none⟩
+  parse := fun s =>
+    if s = [104, 116, 116, 112, 58, 47, 47, 97, 47, 100, 47, 120] then
+      some ⟨some sHttp, some [97], none, [47, 100, 47, 120], s, some [97], s⟩
+    else if s = [104, 116, 116, 112, 58, 47, 47, 97, 47, 100, 47, 121] then
+      some ⟨some sHttp, some [97], none, [47, 100, 47, 121], s, some [97], s⟩
+    else if s.head? = some 47 then some ⟨none, none, none, s, s, none, s⟩
+    else none
+  join := fun base loc =>
+    if base = [104, 116, 116, 112, 58, 47, 47, 97, 47, 100, 47, 120] ∧ loc = [121] then
+      some [104, 116, 116, 112, 58, 47, 47, 97, 47, 100, 47, 121]
+    else none
+
+example : (run relWorld (.manager ⟨.none, .dict [], none⟩) 10
+      { plainReq .none with url := [104, 116, 116, 112, 58, 47, 47, 97, 47, 100, 47, 120] }).log.map
+        (fun s => (s.url, s.target, s.reply.status))
+    = [([104, 116, 116, 112, 58, 47, 47, 97, 47, 100, 47, 120], [47, 100, 47, 120], 302),
+       ([104, 116, 116, 112, 58, 47, 47, 97, 47, 100, 47, 121], [47, 100, 47, 121], 200)] := by
+  decide
+
+/-! ### the exhaustion surface -/
+
+/-- **Exhaustion surface** — for the run of one call, `eff` the policy in effect:
+1. `MaxRetryError` (too many redirects) is raised only with `raise_on_redirect` on, and the last reply
+   on the wire was a followable redirect;
+2. a response that is returned is always the *last* reply on the wire, and a followable redirect is
+   returned only with `redirect=False` or `raise_on_redirect` off;
+3. neither happens prematurely: whenever the run ends on a followable redirect although redirects are
+   enabled — `MaxRetryError`, or the 3xx itself — a counter that pays for redirects is used up
+   exactly: the redirect budget or the total budget of `eff` equals the number of redirects followed
+   (for policies none of whose other counters is negative).
+Together with `C05_followed_le_budget`: the budget is spent exactly, then the surface is
+`MaxRetryError`, or the last 3xx when `raise_on_redirect` is `False`. -/
+theorem C05_exhaustion_surface (W : World) (c : Client) (fuel : Nat) (req : Req) :
+    ((run W c fuel req).outcome = .maxRetry →
+      (effective c req).raiseOnRedirect = true ∧
+      ∃ s, (run W c fuel req).log.getLast? = some s ∧ s.reply.redirectLocation.isSome = true) ∧
+    (∀ x, (run W c fuel req).outcome = .response x →
+      ∃ s, (run W c fuel req).log.getLast? = some s ∧ x = s.reply ∧
+        (s.reply.redirectLocation.isSome = true →
+          req.redirect = some false ∨ (effective c req).raiseOnRedirect = false)) ∧
+    (SaneCounters (effective c req) →
+      ((run W c fuel req).outcome = .maxRetry ∨
+        (req.redirect ≠ some false ∧ ∃ s, (run W c fuel req).log.getLast? = some s ∧
+          (run W c fuel req).outcome = .response s.reply ∧ s.reply.redirectLocation.isSome = true)) →
+      (effective c req).redirectBudget = some (run W c fuel req).followed ∨
+      (effective c req).totalBudget = some (run W c fuel req).followed) := by
+  obtain ⟨hnil, hlast⟩ := run_surface W c fuel req
+  -- the last request, if any
+  have hsplit : (run W c fuel req).log = [] ∨
+      ∃ pre s, (run W c fuel req).log = pre ++ [s] ∧ (run W c fuel req).log.getLast? = some s ∧
+        (run W c fuel req).followed = pre.length := by
+    rcases List.eq_nil_or_concat (run W c fuel req).log with h | ⟨pre, s, h⟩
+    · exact Or.inl h
+    · refine Or.inr ⟨pre, s, by simpa using h, by rw [h]; simp, ?_⟩
+      unfold Run.followed; rw [h]; simp
+  have hredF : ∀ {P : Prop}, req.redirect.getD true = false → (req.redirect = some false → P) → P := by
+    intro P h k
+    cases hr : req.redirect with
+    | none => rw [hr] at h; cases h
+    | some v => rw [hr] at h; simp at h; subst h; exact k hr
+  refine ⟨?_, ?_, ?_⟩
+  · intro hout
+    rcases hsplit with h | ⟨pre, s, hl, hg, _⟩
+    · exact absurd hout (hnil h).1
+    · obtain ⟨rk, hd, he⟩ := hlast pre s hl (Or.inl hout)
+      rcases he with he | he | he | ⟨_, hfol, _, he⟩
+      · rw [hout] at he; cases he
+      · rw [hout] at he; cases he
+      · rw [hout] at he; cases he.1
+      · refine ⟨?_, s, hg, hfol⟩
+        rw [← hd.1]
+        cases hr : rk.raiseOnRedirect with
+        | true => rfl
+        | false => rw [hr, hout] at he; cases he
+  · intro x hout
+    rcases hsplit with h | ⟨pre, s, hl, hg, _⟩
+    · exact absurd hout ((hnil h).2 x)
+    · obtain ⟨rk, hd, he⟩ := hlast pre s hl (Or.inr ⟨x, hout⟩)
+      rcases he with he | he | he | ⟨_, hfol, _, he⟩
+      · rw [hout] at he; cases he
+      · rw [hout] at he; cases he
+      · rw [hout] at he
+        refine ⟨s, hg, by injection he.1, ?_⟩
+        intro hfol
+        rcases he.2 with h | h
+        · exact hredF h Or.inl
+        · rw [h] at hfol; cases hfol
+      · cases hr : rk.raiseOnRedirect with
+        | true => rw [hr, hout] at he; cases he
+        | false =>
+          rw [hr, hout] at he
+          exact ⟨s, hg, by injection he, fun _ => Or.inr (by rw [← hd.1]; exact hr)⟩
+  · intro hsane hout
+    have hex : ∃ (pre : List Sent) (s : Sent) (rk : Retry), (run W c fuel req).followed = pre.length ∧
+        Descends (effective c req) rk pre.length ∧
+        ∃ m' cc, rk.increment (some m') (.redirect s.reply.status) = .error (.maxRetry cc) := by
+      rcases hout with hout | ⟨hred, s', hg', hout, hfol'⟩
+      · rcases hsplit with h | ⟨pre, s, hl, hg, hf⟩
+        · exact absurd hout (hnil h).1
+        · obtain ⟨rk, hd, he⟩ := hlast pre s hl (Or.inl hout)
+          rcases he with he | he | he | ⟨_, _, hinc, _⟩
+          · rw [hout] at he; cases he
+          · rw [hout] at he; cases he
+          · rw [hout] at he; cases he.1
+          · exact ⟨pre, s, rk, hf, hd, hinc⟩
+      · rcases hsplit with h | ⟨pre, s, hl, hg, hf⟩
+        · rw [h] at hg'; cases hg'
+        · rw [hg] at hg'
+          injection hg' with hg'
+          subst hg'
+          obtain ⟨rk, hd, he⟩ := hlast pre s hl (Or.inr ⟨_, hout⟩)
+          rcases he with he | he | he | ⟨_, _, hinc, _⟩
+          · rw [hout] at he; cases he
+          · rw [hout] at he; cases he
+          · rcases he.2 with h | h
+            · exact hredF h (fun h' => absurd h' hred)
+            · rw [h] at hfol'; cases hfol'
+          · exact ⟨pre, s, rk, hf, hd, hinc⟩
+    obtain ⟨pre, s, rk, hf, hd, m', cc, hinc⟩ := hex
+    rw [hf]
+    rcases increment_redirect_fail (hd.2.2.2 hsane) hinc with h0 | h0
+    · left; have := hd.2.1 0 h0; simpa [Retry.redirectBudget] using this
+    · right; have := hd.2.2.1 0 h0; simpa [Retry.totalBudget] using this
+
+/-- non-vacuity (both surfaces, budget spent exactly): `Retry(total=10, redirect=2)` in the redirect
+loop ends in `MaxRetryError` after exactly 2 redirects; with `raise_on_redirect=False` the third 302
+is returned instead -/
+example : SaneCounters (effective (.manager ⟨.none, .dict [], none⟩)
+      (plainReq (.retry (Retry.ofTotal (.num 10) (.num 2))))) ∧
+    (run loopWorld (.manager ⟨.none, .dict [], none⟩) 10
+      (plainReq (.retry (Retry.ofTotal (.num 10) (.num 2))))).outcome = .maxRetry ∧
+    (run loopWorld (.manager ⟨.none, .dict [], none⟩) 10
+      (plainReq (.retry (Retry.ofTotal (.num 10) (.num 2))))).followed = 2 ∧
+    (run loopWorld (.manager ⟨.none, .dict [], none⟩) 10
+      (plainReq (.retry { Retry.ofTotal (.num 10) (.num 2) with raiseOnRedirect := false }))).outcome
+        = .response ⟨302, some [47, 110]⟩ ∧
+    (run loopWorld (.manager ⟨.none, .dict [], none⟩) 10
+      (plainReq (.retry { Retry.ofTotal (.num 10) (.num 2) with raiseOnRedirect := false }))).followed = 2 := by
+  exact ⟨sane_ofTotal _ _, by decide, by decide, by decide, by decide⟩
 
 end U3.Props
